@@ -105,7 +105,30 @@ def rule_r1(ctx, rep):
             break
         if not (isinstance(r, list) and len(r) == 3 and isinstance(r[0], dict)):
             continue
-        selfobj = {"__obj__": True, "_attributes": dict(r[0]), "attributes": dict(r[0])}
+        # the Rule object as its own constructor builds it (folded; falls back to the documented field when the constructor
+        # does something the folder cannot follow)
+        selfobj = {"__obj__": True}
+        try:
+            init = rule_method(prog, "__init__")
+            pe.call(init, [selfobj, rname])
+        except (PEvalUnsupported, Raised, AnalysisError):
+            selfobj = {"__obj__": True, "_attributes": dict(r[0]), "attributes": dict(r[0])}
+
+        def long_lived_lists():
+            seen, out, todo = set(), [], [selfobj] + [v for k, v in pe.class_state.items()]
+            while todo:
+                x = todo.pop()
+                if id(x) in seen:
+                    continue
+                seen.add(id(x))
+                if isinstance(x, list):
+                    out.append(x)
+                    todo.extend(x)
+                elif isinstance(x, tuple):
+                    todo.extend(x)
+                elif isinstance(x, dict):
+                    todo.extend(x.values())
+            return out
         for an, spec in r[0].items():
             if not (isinstance(spec, list) and spec):
                 continue
@@ -117,6 +140,12 @@ def rule_r1(ctx, rep):
                 got_r, got_v = f"raises {ex.cls}", None
             except PEvalUnsupported as ex:
                 raise AnalysisError(f"cannot fold the introspection helpers over the table: {ex}")
+            if isinstance(got_v, list) and any(got_v is x for x in long_lived_lists()):
+                rep.oblige(("R1a", rname, an), False)
+                rep.add("R1", f_val.qname, f"{rname}.{an}", "allowed_attribute_values hands out the very list kept in the rule object / a module-level table, "
+                        "not a copy: a caller that edits it (e.g. a form adding a blank choice) changes what every later validation accepts", f_val.loc())
+                stop = True
+                break
             ok = got_r == spec[0] and got_v == list(spec[1:])
             rep.oblige(("R1t", rname, an), ok)
             if not ok:
@@ -197,8 +226,23 @@ def rule_r2(ctx, rep):
         pe = PEval(ctx.world)
         failed = False
         tgt = loop.target
+        # the abstract Rule object, built by folding the constructor over a one-rule table holding the abstract attribute specs
+        selfobj0 = None
+        try:
+            pe0 = PEval(ctx.world)
+            init = rule_method(prog, "__init__")
+            r0 = prog.resolve_name_expr(init.module, ast.Name(id="rules_dict", ctx=ast.Load()))
+            if r0 and r0[0] == "const":
+                pe0.class_state[("<module>", r0[1].name, r0[2])] = {"absRule": [{k: list(v) for k, v in rule_attrs.items()}, [], {"content_rules": ["anyContent"]}]}
+                so = {"__obj__": True}
+                pe0.call(init, [so, "absRule"])
+                so.setdefault("attributes", so.get("_attributes"))
+                selfobj0 = so
+                pe.class_state.update(pe0.class_state)
+        except (PEvalUnsupported, Raised, AnalysisError):
+            selfobj0 = None
         for na in worlds:
-            selfobj = {"__obj__": True, "_attributes": rule_attrs, "attributes": rule_attrs}
+            selfobj = dict(selfobj0) if selfobj0 is not None else {"__obj__": True, "_attributes": rule_attrs, "attributes": rule_attrs}
             nodeobj = {"__obj__": True, "attributes": na, "_attributes": na, "name": "n", "_name": "n"}
             coll_d = rule_attrs if coll == "rule" else na
             reported = set()
